@@ -76,7 +76,44 @@ func gridWorld(r *rand.Rand, l Layout) []WFile {
 	}
 }
 
+// gridEnumSize is the number of cells of the enumerated grid (thorough tier).
+var (
+	enumArchSels = []string{"all", "id0", "id1", "id2", "id3", "minus2", "n"}
+	enumWindows  = []string{"default", "past", "future", "beyond-finest", "degenerate", "from-after-until", "beyond-1", "beyond-2", "beyond-3"}
+)
+
+const gridEnumSize = 8 * 7 * 9 * 8 * 3 * 2 * 2
+
+// genEnumerated decodes run index idx into (world number, cell): the thorough
+// tier walks the whole grid for one seeded world after the other.
+func genEnumerated(idx int) *GridCase {
+	world := idx / gridEnumSize
+	cell := idx % gridEnumSize
+	r := newRng(RunSeed(*flagSeed, "C16/world", world))
+	l := genLayout(r, pick(r, "small", "small", "edge", "four", "tiny"))
+	c := &GridCase{Layout: l, Clock0: genClock0(r, l), SchedSeed: r.Uint64()}
+	c.Files = gridWorld(r, l)
+	take := func(n int) int { v := cell % n; cell /= n; return v }
+	c.Kind = gridKinds[take(8)]
+	c.ArchSel = enumArchSels[take(7)]
+	c.Window = enumWindows[take(9)]
+	c.EnvFault = gridEnvs[take(8)]
+	c.TextOut = gridTextOuts[take(3)]
+	c.Remote = take(2) == 1
+	c.ViaParse = take(2) == 1
+	c.CopyNaN = world%2 == 1
+	switch c.Kind {
+	case "view", "view-raw", "sum", "diff":
+	default:
+		c.Remote = false
+	}
+	return c
+}
+
 func (gridSim) Gen(prop, tier string, r *rand.Rand) interface{} {
+	if tier == "thorough" {
+		return genEnumerated(genIndex)
+	}
 	l := genLayout(r, pick(r, "small", "small", "edge", "four", "tiny"))
 	c := &GridCase{Layout: l, Clock0: genClock0(r, l), SchedSeed: r.Uint64()}
 	c.Files = gridWorld(r, l)
